@@ -59,7 +59,10 @@ TrEnd == /\ IsEv("mwend")
               /\ PrintT(<<"VFSCEN", scen, Cardinality(vs), l>>)
               /\ \A v \in vs : PrintT(<<"VFVIOL", ToJson(v)>>)
          /\ viol' = {} /\ l' = l + 1 /\ UNCHANGED <<scen, ok, failed, wire, rds>>
-TNext == TrCfg \/ TrWret \/ TrWire \/ TrRd \/ TrEnd
+\* a write call that never returned after the association was torn down (certified by two identical stack samples)
+TrStuck == /\ IsEv("stuck") /\ viol' = viol \cup {V("C20_CallNeverReturns", <<E.what, E.stacks>>)}
+           /\ l' = l + 1 /\ UNCHANGED <<scen, ok, failed, wire, rds>>
+TNext == TrCfg \/ TrWret \/ TrWire \/ TrRd \/ TrEnd \/ TrStuck
 TSpec == TInit /\ [][TNext]_tvars
 HighWater == TLCSet(1, MaxI(TLCGet(1), l))
 Accepted == TLCGet(1) = Len(Trace) + 1
